@@ -8,7 +8,7 @@ import hashlib, json, os, re, shutil, signal, subprocess, sys, threading, time
 from concurrent.futures import ThreadPoolExecutor
 
 VERIF = os.path.dirname(os.path.dirname(os.path.abspath(__file__)))
-HARNESS = os.path.join(VERIF, "harness")
+HARNESS = os.environ.get("VERIF_HARNESS") or os.path.join(VERIF, "harness")  # VERIF_HARNESS: frozen copy for long dev runs
 BUILD = os.path.join(VERIF, ".build")
 LOGS = os.path.join(BUILD, "logs")
 REPLAYS = os.path.join(VERIF, "replays")
